@@ -11,12 +11,13 @@
      flush()                for a dirty CIDR: not a valid route any more -> OnRouteRemove if it was sent; otherwise walk the
                             lookup path (enclosing block entry, then the CIDR's own entries) computing DstNodeName, the
                             LOCAL/REMOTE_WORKLOAD type bits, LocalWorkload and Borrowed exactly as the Go loop does.
-   The real OnBlockUpdate applies all of a block's route changes and flushes once; here every single change is its own
-   input message (a finer interleaving; the flushed route table is the same).
+   One input message of the node is a BATCH of entry changes followed by one flush: OnBlockUpdate applies all the route
+   changes of one block value (removals, then additions) and flushes once; OnWorkloadUpdate is a batch of one.
    Node 0 is the local node.
 
-   Tied to the Go code by reading plus the replay of the witness on the real resolver (see the finding); NOT part of
-   the correspondence run. *)
+   Tied to the Go code by the correspondence run: the driver's L3 cases drive the REAL L3RouteResolver with block values
+   and local workload endpoints and Spec.check_l3 compares the route table it emitted with this model and with
+   [route_of] of the final inputs. *)
 From stdpp Require Import gmap.
 From Verif.C01 Require Import Model Compose.
 Local Open Scope N_scope.
@@ -100,15 +101,23 @@ Section L3.
     | None => if decide (is_Some (x.1 !! c)) then (delete c x.1, x.2 ++ [RRem c]) else x
     end.
 
-  Definition l3_step (reflag : bool) (s : l3st) (o : l3op) : l3st * list rmsg :=
-    let i := in_apply (l_in s) o in
-    let '(sent, ms) := foldl (flush1 i) (l_sent s, []) (dirty reflag i o) in
+  (* apply a batch: final inputs and everything marked dirty on the way *)
+  Fixpoint batch_apply (reflag : bool) (i : inputs) (os : list l3op) : inputs * list cidr :=
+    match os with
+    | [] => (i, [])
+    | o :: r => let i1 := in_apply i o in
+                let '(i2, d) := batch_apply reflag i1 r in (i2, dirty reflag i1 o ++ d)
+    end.
+
+  Definition l3_step (reflag : bool) (s : l3st) (os : list l3op) : l3st * list rmsg :=
+    let '(i, d) := batch_apply reflag (l_in s) os in
+    let '(sent, ms) := foldl (flush1 i) (l_sent s, []) d in
     ({| l_in := i; l_sent := sent |}, ms).
 
-  Definition l3_node (reflag : bool) : node l3op rmsg := Node l3st l3st0 (l3_step reflag).
+  Definition l3_node (reflag : bool) : node (list l3op) rmsg := Node l3st l3st0 (l3_step reflag).
 
   (* stream types *)
-  Definition L3IN : stype := SType l3op inputs inputs0 in_apply eq.
+  Definition L3IN : stype := SType (list l3op) inputs inputs0 (foldl in_apply) eq.
   Definition rt_apply (t : gmap cidr route) (m : rmsg) : gmap cidr route :=
     match m with RUpd c r => <[c := r]> t | RRem c => delete c t end.
   Definition RT : stype := SType rmsg (gmap cidr route) ∅ rt_apply eq.
@@ -172,26 +181,44 @@ Section L3.
          (rewrite lookup_insert_ne || rewrite lookup_delete_ne); [done|congruence].
   Qed.
 
-  Lemma l3_step_inv s o :
+  Lemma batch_apply_inputs reflag os i : (batch_apply reflag i os).1 = foldl in_apply i os.
+  Proof.
+    revert i. induction os as [|o r IH]; intros i; simpl; [done|].
+    specialize (IH (in_apply i o)). destruct (batch_apply reflag (in_apply i o) r). simpl in *. done.
+  Qed.
+
+  Lemma batch_frame os i c :
+    c ∉ (batch_apply true i os).2 → route_of (batch_apply true i os).1 c = route_of i c.
+  Proof.
+    revert i. induction os as [|o r IH]; intros i; [done|].
+    cbn [batch_apply]. specialize (IH (in_apply i o)).
+    destruct (batch_apply true (in_apply i o) r) as [i2 d]. cbn [fst snd] in *.
+    intros Hn. apply not_elem_of_app in Hn as [H1 H2].
+    rewrite (IH H2). by apply route_of_frame.
+  Qed.
+
+  Lemma l3_step_inv s os :
     table_ok (l_in s) (l_sent s) →
-    let '(s', ms) := l3_step true s o in
-    l_in s' = in_apply (l_in s) o ∧ table_ok (l_in s') (l_sent s') ∧
+    let '(s', ms) := l3_step true s os in
+    l_in s' = foldl in_apply (l_in s) os ∧ table_ok (l_in s') (l_sent s') ∧
     ∀ t0, t0 = l_sent s → foldl rt_apply t0 ms = l_sent s'.
   Proof.
     intros Hok. unfold l3_step.
-    destruct (foldl (flush1 (in_apply (l_in s) o)) (l_sent s, []) (dirty true (in_apply (l_in s) o) o)) as [sent ms] eqn:E.
+    pose proof (batch_apply_inputs true os (l_in s)) as Hi. pose proof (batch_frame os (l_in s)) as Hfr.
+    destruct (batch_apply true (l_in s) os) as [i d]. simpl in Hi, Hfr.
+    destruct (foldl (flush1 i) (l_sent s, []) d) as [sent ms] eqn:E.
     simpl. split; [done|]. split.
-    - intros c. pose proof (flush_spec (in_apply (l_in s) o) (dirty true (in_apply (l_in s) o) o) (l_sent s, []) c) as Hs.
+    - intros c. pose proof (flush_spec i d (l_sent s, []) c) as Hs.
       rewrite E in Hs. simpl in Hs. rewrite Hs. destruct (decide _) as [|Hn]; [done|].
-      rewrite Hok. symmetry. by apply route_of_frame.
-    - intros t0 ->. pose proof (flush_msgs (in_apply (l_in s) o) (dirty true (in_apply (l_in s) o) o) (l_sent s, []) (l_sent s) eq_refl) as Hm.
+      rewrite Hok. symmetry. by apply Hfr.
+    - intros t0 ->. pose proof (flush_msgs i d (l_sent s, []) (l_sent s) eq_refl) as Hm.
       by rewrite E in Hm.
   Qed.
 
   Lemma l3_run_inv ops s t0 :
     table_ok (l_in s) (l_sent s) →
     let '(s', ms) := n_run (l3_node true) s ops in
-    l_in s' = foldl in_apply (l_in s) ops ∧ table_ok (l_in s') (l_sent s') ∧
+    l_in s' = foldl (foldl in_apply) (l_in s) ops ∧ table_ok (l_in s') (l_sent s') ∧
     (t0 = l_sent s → foldl rt_apply t0 ms = l_sent s').
   Proof.
     revert s t0. induction ops as [|o r IH]; intros s t0 Hok; simpl; [done|].
@@ -228,8 +255,8 @@ End L3.
 
 (* PINNED code (no re-flagging): the same final inputs reached in two orders give two different route tables.
    Block 5 belongs to remote node 1, address 7 lies in block 5 and carries a workload of the local node 0. *)
-Definition l3_witness_a : list l3op := [BlockSet 5 1; WepSet 7 0].
-Definition l3_witness_b : list l3op := [WepSet 7 0; BlockSet 5 1].
+Definition l3_witness_a : list (list l3op) := [[BlockSet 5 1]; [WepSet 7 0]].
+Definition l3_witness_b : list (list l3op) := [[WepSet 7 0]; [BlockSet 5 1]].
 Lemma l3_pinned_refuted :
   net L3IN l3_witness_a = net L3IN l3_witness_b ∧
   bool_decide (net RT (n_outs (l3_node (λ _, 5) false) l3_witness_a) = net RT (n_outs (l3_node (λ _, 5) false) l3_witness_b)) = false ∧
